@@ -30,6 +30,139 @@ func (f *frame) doCall(i *ssa.Call, st *State, pc string) string {
 	for _, a := range com.Args {
 		args = append(args, f.val(a))
 	}
+	// closures handed to the callee: couple captured locals with ghost variables
+	var coupled []*ssa.MakeClosure
+	for _, a := range com.Args {
+		if ct, ok := a.(*ssa.ChangeType); ok { // func literal converted to a named function type
+			a = ct.X
+		}
+		if mc, ok := a.(*ssa.MakeClosure); ok && f.top && g.spec != nil && g.spec.Closures != nil {
+			if cs := g.spec.Closures[f.closOrd[mc]]; cs != nil {
+				f.closureOut(mc, cs, st, pc)
+				coupled = append(coupled, mc)
+			}
+		}
+	}
+	if len(coupled) > 0 {
+		npc := f.doCallInner(i, st, pc, args)
+		for _, mc := range coupled {
+			f.closureBack(mc, g.spec.Closures[f.closOrd[mc]], st)
+		}
+		return npc
+	}
+	return f.doCallInner(i, st, pc, args)
+}
+
+// coupledCell finds the boxed cell of a captured local by source name.
+func (f *frame) coupledCell(mc *ssa.MakeClosure, name string) (heap, ref string, ty types.Type) {
+	g := f.g
+	fn := mc.Fn.(*ssa.Function)
+	for k, fv := range fn.FreeVars {
+		if fv.Name() == name {
+			b := mc.Bindings[k]
+			et := b.Type().Underlying().(*types.Pointer).Elem()
+			return g.boxHeapOf(et), f.val(b).S, et
+		}
+	}
+	fail("contract %s: closure does not capture %q", funcKey(f.fn), name)
+	return
+}
+
+// closureOut: before the call the ghost variable takes the captured local's value; the closure
+// body is checked (once) against the func-type contract it is declared to implement.
+func (f *frame) closureOut(mc *ssa.MakeClosure, cs *ClosureSpec, st *State, pc string) {
+	g := f.g
+	ft := g.Specs.Funcs[cs.Impl]
+	if ft == nil || ft.Kind != "functype" {
+		fail("contract %s: closure implements unknown function type %s", funcKey(f.fn), cs.Impl)
+	}
+	ghostHeap := func(n string) string {
+		gt, ok := g.Specs.GhostVar[n]
+		if !ok {
+			fail("contract %s: couple names unknown ghost variable %s", funcKey(f.fn), n)
+		}
+		_, so := g.resolveType(gt)
+		g.declHeap("ghost."+n, so)
+		return "ghost." + n
+	}
+	for _, c := range cs.Couple {
+		h, ref, _ := f.coupledCell(mc, c[0])
+		g.writeHeap(st, ghostHeap(c[1]), "", g.readHeap(st, h, ref))
+	}
+	if f.closChecked[mc] {
+		return
+	}
+	f.closChecked[mc] = true
+	// check the body: arbitrary coupled state, arbitrary arguments
+	fn := mc.Fn.(*ssa.Function)
+	s0 := st.clone()
+	for _, c := range cs.Couple {
+		h, ref, et := f.coupledCell(mc, c[0])
+		v := g.s.decl("cl."+c[0], g.sortOf(et))
+		g.writeHeap(s0, h, ref, v.S)
+		g.writeHeap(s0, ghostHeap(c[1]), "", v.S)
+	}
+	entry := s0.clone()
+	sub := g.newFrame(fn, fmt.Sprintf("%sclosure%d.", f.prefix, f.closOrd[mc]), false)
+	for k, fv := range fn.FreeVars {
+		b := mc.Bindings[k]
+		if a, ok := f.addrs[b]; ok {
+			sub.addrs[fv] = a
+		} else {
+			sub.vals[fv] = f.val(b)
+		}
+	}
+	var cargs []T
+	vars := map[string]CV{}
+	if len(ft.Params) != len(fn.Params)+1 {
+		fail("contract %s: function type %s declares %d parameters, the closure has %d", funcKey(f.fn), cs.Impl, len(ft.Params)-1, len(fn.Params))
+	}
+	vars[ft.Params[0].Name] = CV{f.val(mc), mc.Type()}
+	for k, p := range fn.Params {
+		v := g.s.decl("cl."+p.Name(), g.sortOf(p.Type()))
+		g.s.assumeUnder(pc, g.typeInv(s0, v, p.Type()))
+		cargs = append(cargs, v)
+		vars[ft.Params[k+1].Name] = CV{v, p.Type()}
+	}
+	henv := &Env{g: g, st: s0, old: s0, vars: vars, pc: pc, hyp: true}
+	for _, c := range ft.Requires {
+		g.s.assumeUnder(pc, henv.tr(c.E, true).S)
+	}
+	sub.run(cargs, s0, pc)
+	names := g.resultNames(ft, fn.Signature.Results().Len())
+	for n, r := range sub.rets {
+		for _, c := range cs.Couple { // the ghost variable is the captured local
+			h, ref, _ := f.coupledCell(mc, c[0])
+			g.writeHeap(r.st, ghostHeap(c[1]), "", g.readHeap(r.st, h, ref))
+		}
+		rv := map[string]CV{}
+		for k, v := range vars {
+			rv[k] = v
+		}
+		for k, nm := range names {
+			rv[nm] = CV{r.vals[k], fn.Signature.Results().At(k).Type()}
+		}
+		env := &Env{g: g, st: r.st, old: entry, vars: rv, pc: r.pc, hyp: false}
+		for k, c := range ft.Ensures {
+			goal := env.tr(c.E, true)
+			f.oblig("ensures", fmt.Sprintf("%s#closure%d.refines(%s).%s@ret%d", funcKey(f.fn), f.closOrd[mc], cs.Impl, clauseLabel(c, k), n), r.pc, goal.S,
+				"closure implements "+cs.Impl+": ensures "+c.Text, r.pos, c.Props)
+		}
+	}
+}
+
+// closureBack: after the call the captured local holds what the ghost variable says.
+func (f *frame) closureBack(mc *ssa.MakeClosure, cs *ClosureSpec, st *State) {
+	g := f.g
+	for _, c := range cs.Couple {
+		h, ref, _ := f.coupledCell(mc, c[0])
+		g.writeHeap(st, h, ref, g.readHeap(st, "ghost."+c[1], ""))
+	}
+}
+
+func (f *frame) doCallInner(i *ssa.Call, st *State, pc string, args []T) string {
+	g := f.g
+	com := i.Call
 	if com.IsInvoke() {
 		recv := f.val(com.Value)
 		f.panicOb("nil", pc, not(eq(recv.S, "0")), i.Pos(), "method call on nil interface ("+com.Method.Name()+")")
